@@ -417,7 +417,7 @@ package cluster
 //@        (istype(c.message, *Members) || istype(c.message, *Activation) || istype(c.message, *Deactivation) || istype(c.message, *ActorTopology) || istype(c.message, deactivate) ==> replied == 0)
 //@   ghost at storeelem#1: kat = store(kat, kind, i)
 //@   ghost at call Respond#4 before: assert[C18.receive.kinds-query-answered-with-exactly-the-kinds] arg0 == c && len(arg1.([]string)) == len(a.kinds) &&
-//@        forallS("Str", k, has(a.kinds, k) ==> 0 <= kat[k] && kat[k] < len(arg1.([]string)) && arg1.([]string)[kat[k]] == k) && forall(j, 0 <= j && j < len(arg1.([]string)) ==> has(a.kinds, arg1.([]string)[j]))
+//@        forallS("Str", k, has(a.kinds, k) ==> exists(j, 0 <= j && j < len(arg1.([]string)) && arg1.([]string)[j] == k)) && forall(j, 0 <= j && j < len(arg1.([]string)) ==> has(a.kinds, arg1.([]string)[j]))
 //@   ensures[C18.receive.view-equals-snapshot] istype(old(c.message), *Members) ==> forallS("Str", id, has(a.members.members, id) ==> exists(j, 0 <= j && j < len(old(c.message).(*Members).Members) && old(c.message).(*Members).Members[j].ID == id)) &&
 //@        forall(j, 0 <= j && j < len(old(c.message).(*Members).Members) ==> has(a.members.members, old(c.message).(*Members).Members[j].ID))
 //@   ensures[C18.receive.query-changes-nothing] istype(old(c.message), getMembers) ==> forallS("Str", id, has(a.members.members, id) == old(has(a.members.members, id)))
